@@ -1,4 +1,15 @@
-"""C04  And/Or/Not compose query results as intersection, union and complement."""
+"""C04  And/Or/Not compose query results as intersection, union and complement.
+
+`applye2e` is answered on the model side by `applyQM`: the `_apply` composition over the C01/C02 index models
+that ran the same `doc` history (theorem `c04_end_to_end` says it equals the specification-level `applyQ`,
+which the driver prints as the specification answer of that command).
+
+Mutation sanity check (scratch copies, quick tier, seed 0; all reported VIOLATION with a failing input):
+  M1 `Query.union`: right non-empty and left empty returns left          M2 `Not._apply` forgets `negate()`
+  M3 `BaseIndexMixin._negate` short-cut returns `indexed()` (drops value-less documents)
+  M4 `Ge.negate` returns `Le`                                            M5 `Query.intersect` returns left when
+     right is empty
+"""
 from lib import qtree
 from lib.core import exc_name, idset
 
@@ -7,20 +18,24 @@ AUDIT_IMPORTS = ["HypatiaProofs.Properties.C04"]
 THEOREMS = ["Hyp.Query." + t for t in (
     "c04_budget_irrelevant", "c04_and", "c04_or", "c04_well_typed_succeeds", "c04_and_constructor",
     "c04_or_constructor", "c04_not_is_negate", "c04_complement_partial", "c04_negate_complement_partial",
-    "c04_notall_violates_complement")]
-CASES = {"quick": 1500, "thorough": 150000}
+    "c04_notall_violates_complement", "c04_end_to_end", "c04_apply_congruence", "c04_and_end_to_end")]
+CASES = {"quick": 6000, "thorough": 150000}
 BUDGET_S = {"quick": 40, "thorough": 700}
 RULE = ("catalogs of 1-4 real indexes (field, keyword, facet, text) with 0-25 documents; half of the catalogs are "
         "Total (every document has a non-empty value in every index) and exercise the complement clause, the "
         "other half leave values out (then only And/Or clauses are checked against the specification); random "
         "trees of depth <= 4, arity 1-4, repeated operands, 7% comparators the index does not implement; "
-        "observed through execute(optimize=False), _apply, CatalogQuery.query and the &/| operators, plus "
+        "half of the catalogs re-index some documents (new value / no value) before the queries; "
+        "observed through execute(optimize=False), _apply, CatalogQuery.query and the &/| operators (one entry "
+        "point in six is answered on the model side by the composed C01/C02 index models), plus "
         "the shape of the constructed tree and of q.negate(). non-trivial = tree has a boolean node and the "
         "case contains a non-empty and two different answers")
 LEVEL_TEXT = ("Lean 4 theorems by induction over the query tree for every catalog: And = intersection, Or = union "
               "of the operands' answers, Not/negate = complement under the Total hypothesis (De Morgan over "
               "hypatia's negate table), with the model of hypatia/query tied to the code by a differential run")
-LEVEL_NOTE = ("leaves are answered at specification level (C01/C02/C03 justify that); trusted: Lean kernel, the "
+LEVEL_NOTE = ("leaves are answered at specification level; for field and keyword/facet indexes that is a theorem "
+              "(c04_end_to_end: the same _apply composition over the C01/C02 index models after arbitrary "
+              "histories has the same outcome on every tree), text leaves rest on C03; trusted: Lean kernel, the "
               "sampled correspondence, harness. Known findings D2 (NotAll._apply) and D10 (family32) are mirrored "
               "/ classified, not hidden")
 TECHNIQUE = "Lean 4 structural induction over the query AST + differential correspondence on real catalogs"
@@ -32,10 +47,27 @@ def gen(rng, tier, idx):
     if rng.random() < 0.04:
         cfg[0] = ["cfg", "family", 32]
     cmds = list(docs)
+    if docs and rng.random() < 0.5:
+        # histories, not just fills: some documents are indexed again with another value (or, on
+        # non-Total catalogs, without one) - the index models of C01/C02 run the same history (`applye2e`)
+        for _ in range(rng.randrange(1, 5)):
+            _, i, d = rng.choice(docs)[:3]
+            k = kinds[i]
+            if not total and rng.random() < 0.25:
+                cmds.append(["doc", i, d, "none"])
+            elif k == "field":
+                cmds.append(["doc", i, d, rng.randrange(10)])
+            elif k == "text":
+                cmds.append(["doc", i, d] + [rng.randrange(len(qtree.WORDS)) for _ in range(rng.randrange(1, 5))])
+            else:
+                cmds.append(["doc", i, d] + sorted(set(rng.randrange(6) for _ in range(rng.randrange(1, 4)))))
     for _ in range(rng.randrange(3, 9)):
         t = qtree.gen_tree(rng, kinds, rng.randrange(1, 5))
         toks = qtree.flat_tokens(t)
-        cmds.append([rng.choice(["apply", "apply", "applyq", "applyraw", "applyops"])] + toks)
+        op = rng.choice(["apply", "apply", "applyq", "applyraw", "applyops", "applye2e"])
+        if t[0] in ("and", "or") and len(t[1]) >= 3 and rng.random() < 0.5:
+            op = "applyshared"      # the same sub-query object reused as operand of two larger queries
+        cmds.append([op] + toks)
         if rng.random() < 0.3:
             cmds.append(["shape"] + toks)
         if rng.random() < 0.3:
@@ -76,7 +108,9 @@ def impl_run(hyp, case):
                 out.append("ok")
                 continue
             t = qtree.parse_tokens(list(c[1:]))
-            if op == "apply":
+            if op in ("apply", "applye2e"):
+                # applye2e: the model side evaluates the tree over the C01/C02 index *models* fed with the
+                # same doc lines (applyQM), specification side = applyQ over the tables (c04_end_to_end)
                 q = im.build(t)
                 out.append(qtree.run_ids(lambda: q.execute(optimize=False)))
             elif op == "applyraw":
@@ -98,6 +132,22 @@ def impl_run(hyp, case):
             elif op == "applyops":
                 q = build_ops(im, t)
                 out.append(qtree.run_ids(lambda: q.execute(optimize=False)))
+            elif op == "applyshared":
+                # base = first two operands; a decoy query is built from `base` first, then the query under
+                # test from the same `base` object: building one query must not change another (seeded C04_A)
+                from hypatia import query as Q
+                if t[0] in ("and", "or") and len(t[1]) >= 3:
+                    ctor = Q.And if t[0] == "and" else Q.Or
+                    kids = [im.build(k) for k in t[1]]
+                    base = ctor(*kids[:2])
+                    decoy = im.build(t[1][-1]).negate()
+                    unused = (base & decoy) if t[0] == "and" else (base | decoy)      # noqa: F841
+                    q = base
+                    for k in kids[2:]:
+                        q = (q & k) if t[0] == "and" else (q | k)
+                else:
+                    q = im.build(t)
+                out.append(qtree.run_ids(lambda: q.execute(optimize=False)))
             elif op == "shape":
                 out.append(" ".join(map(str, im.tokens(im.build(t)))))
             elif op == "negshape":
@@ -110,7 +160,7 @@ def impl_run(hyp, case):
 
 
 def model_cmd(c):
-    if c[0] in ("applyq", "applyraw", "applyops"):
+    if c[0] in ("applyq", "applyraw", "applyops", "applyshared"):
         return ["apply"] + list(c[1:])
     return c
 
